@@ -25,6 +25,8 @@ pub struct BRef {
 pub enum Callee {
     Sub(usize),
     Extern(usize),
+    /// the artificial sink function that `normalize_basic` adds and retargets calls of non-existing functions to
+    Sink,
 }
 
 #[derive(Clone, Debug, PartialEq, Eq)]
@@ -103,8 +105,13 @@ pub fn decode(t: &mut Tape) -> Case {
                 }
                 4 => {
                     let c = t.below(n_subs + n_ext);
-                    let callee = if c < n_subs { Callee::Sub(c) } else { Callee::Extern(c - n_subs) };
-                    let ret = if t.prob(200) { Some(pick_target(t, &counts, s, cross_p)) } else { None };
+                    let mut callee = if c < n_subs { Callee::Sub(c) } else { Callee::Extern(c - n_subs) };
+                    let mut ret = if t.prob(200) { Some(pick_target(t, &counts, s, cross_p)) } else { None };
+                    if t.prob(25) {
+                        // what normalization makes of a call to a non-existing function
+                        callee = Callee::Sink;
+                        ret = None;
+                    }
                     JSpec::Call { callee, ret }
                 }
                 5 => {
@@ -157,6 +164,7 @@ pub fn build(c: &Case) -> Term<Program> {
                     let target = match callee {
                         Callee::Sub(i) => irb::sub_tid(sub_addr(*i)),
                         Callee::Extern(e) => irb::sub_tid(ext_addr(*e)),
+                        Callee::Sink => Tid::artificial_sink_sub(),
                     };
                     vec![irb::jmp(jt(0), Jmp::Call { target, return_: ret.map(bt) })]
                 }
@@ -170,6 +178,9 @@ pub fn build(c: &Case) -> Term<Program> {
         subs.push(irb::sub(irb::sub_tid(sub_addr(si)), &format!("f{}", si), bl));
     }
     let externs = (0..c.n_ext).map(|e| irb::extern_symbol(irb::sub_tid(ext_addr(e)), &format!("ext{}", e), &["RDI"], false)).collect();
+    if c.subs.iter().flatten().any(|b| matches!(&b.j, JSpec::Call { callee: Callee::Sink, .. })) {
+        subs.push(Term::<Sub>::artificial_sink());
+    }
     irb::project(subs, externs, vec![]).program
 }
 
